@@ -2,7 +2,8 @@ from contracts.h5graph import CONTRACTS as _H
 from contracts.tree import ALL_OF as _ALLOF, ParentSet, PropertyGroupAdd, PropertyGroupRemove
 from contracts.removal import RemoveRecursively, RemoveDataFromGroups, WorkspaceRemoveChildren
 from contracts.histories import ApiHistories, KfRemoveThroughParent
-CONTRACTS = list(_H) + [ParentSet, PropertyGroupAdd, PropertyGroupRemove, RemoveRecursively, RemoveDataFromGroups, WorkspaceRemoveChildren, ApiHistories, KfRemoveThroughParent] + list(_ALLOF)
+from contracts.removal import ObjectRemoveChildren as _ORC
+CONTRACTS = list(_H) + [ParentSet, PropertyGroupAdd, PropertyGroupRemove, RemoveRecursively, RemoveDataFromGroups, WorkspaceRemoveChildren, ApiHistories, KfRemoveThroughParent] + list(_ALLOF) + [_ORC]
 
 MANIFEST = {
     "category": "proof",
